@@ -510,6 +510,37 @@ pub async fn run(cx: &mut Ctx) {
                         .with_sig(&err_class(&o)),
                     ),
                 }
+                // count(*) reads only the row-handler column, a one-column projection reads one
+                // data column: both must agree with the model too
+                {
+                    let o = db.exec(&format!("SELECT count(*) FROM {n}")).await;
+                    cx.stats.evaluations += 1;
+                    if let Some(c) = o.count() {
+                        if c != want.len() as i64 {
+                            cx.violate(Violation::new(
+                                "C07",
+                                "count-differs-from-model",
+                                Some(i),
+                                format!("after [{i}] {}: SELECT count(*) FROM {n} = {c}, model has {} rows", step.brief(), want.len()),
+                            ));
+                        }
+                    }
+                    let ci = i % def.cols.len();
+                    let cname = &def.cols[ci].name;
+                    let o = db.exec(&format!("SELECT {cname} FROM {n}")).await;
+                    cx.stats.evaluations += 1;
+                    if let Some(got) = o.rows() {
+                        let wantc: Vec<Row> = want.iter().map(|r| vec![r[ci].clone()]).collect();
+                        if let Some(d) = multiset_diff(got, &wantc) {
+                            cx.violate(Violation::new(
+                                "C07",
+                                "column-differs-from-model",
+                                Some(i),
+                                format!("after [{i}] {}: SELECT {cname} FROM {n}: {d}", step.brief()),
+                            ));
+                        }
+                    }
+                }
                 // ordered scan of a primary-key table is in key order
                 if let Some(pk) = def.pk {
                     let mut cols: Vec<u32> = (0..def.cols.len() as u32).collect();
